@@ -1,13 +1,18 @@
 import Driver.Proto
 import CifModel.Model.Normalize
 import CifModel.Model.NormalizeBuf
+import CifModel.Model.Serialize
 import CifModel.Gen.ErrCodes
 /- family `norm` (C09).  The request the model sees is the executor's request followed by ` | g:<x>:<NFD x>:<fold NFD x>:<NFC fold NFD x>:<NFC x> …`
    (tools/gen/norm.py `model_request`): the graph of ICU's functions on the strings involved, which instantiates the model's
    `UnicodeOps` parameter.  Tokens after `|` that do not start with `g:` are ignored.
      norm cp <x> | g…                         ↦ nm rc=0 out=<cifNormalize U x>
      norm match <block|frame|item> <a> <b> | g… ↦ nm ca= cb= gb=
-     norm map <tbl|pkt> <op>… | g…            ↦ nm <result>…
+     norm map <tbl|pkt> <op>… | g…            ↦ nm <result>…      (ops S / P: the table goes through the model of
+                                                 cif_value_serialize / cif_value_deserialize (Model/Serialize.lean: normalised key AND
+                                                 original spelling of every entry are written and read); a packet read back through a
+                                                 packet iterator carries its NORMALISED names as spellings (cif_loop_get_names_internal
+                                                 with normalize = TRUE))
    buffer level (Model/NormalizeBuf.lean; the ICU calls are `icuOf` of the functions given by `n:<x>:<NFD x>`, `f:<y>:<fold y>`,
    `c:<z>:<NFC z>` tokens; first-buffer guess `cGuess`, fuel 8):
      norm buf <fn> <z|n> <srclen> <mem> | n… f… c… ↦ nb rc= len= cap= out= term= tr=<trace>
@@ -64,6 +69,14 @@ def runMatch (U : UnicodeOps) (kind : String) (a b : Str) : Option String := do
 /-- insertion sort of hex strings (the executor sorts keys as C strings of lower-case hex) -/
 def sortStrings (l : List String) : List String := (l.toArray.qsort (· < ·)).toList
 
+/-- a table of character values through `cif_value_serialize` and `cif_value_deserialize` (what storing it in a managed CIF and
+    reading it back does) -/
+def throughBlob (es : Entries Str) : Option (Entries Str) :=
+  let v : V := .tbl (es.map fun e => (e.1, e.2.1, V.chr true e.2.2))
+  match CifModel.Model.Serialize.deserialize (fun _ => none) (CifModel.Model.Serialize.ser v) with
+  | some (.tbl es', []) => es'.mapM fun e => match e.2.2 with | .chr _ t => some (e.1, e.2.1, t) | _ => none
+  | _ => none
+
 def runMap (U : UnicodeOps) (isTbl : Bool) (ops : List String) : Option String := do
   let norm : Option Str → Except Code Str :=
     if isTbl then (fun n => normalizeTableIndex U n CIF_INVALID_INDEX) else (fun n => normalizeItemName U n CIF_INVALID_ITEMNAME)
@@ -88,6 +101,11 @@ def runMap (U : UnicodeOps) (isTbl : Bool) (ops : List String) : Option String :
         match es.remove normGet k CIF_NOSUCH_ITEM with
         | .ok es' => pure (es', "r=0" :: out)
         | .error c => pure (es, s!"r={c}" :: out)
+    | ["S"] => if isTbl then (match throughBlob es with | some es' => some (es', "S=0/0" :: out) | none => some (es, "S=MODEL:deserialize" :: out)) else none
+    | ["P"] =>
+        if isTbl then (match throughBlob es with | some es' => some (es', "P=0/0" :: out) | none => some (es, "P=MODEL:deserialize" :: out))
+        else if es.isEmpty then some (es, "P=skip" :: out)
+        else some (es.map (fun e => (e.1, e.1, e.2.2)), "P=0/0" :: out)
     | _ => none
   let (_, out) ← ops.foldlM step (([] : Entries Str), ([] : List String))
   pure (" ".intercalate ("nm" :: out.reverse))
